@@ -45,6 +45,8 @@ inductive Stmt (V : Type) where
   | call (k : Nat)
   /-- `return` that is not the last statement of a procedure body: jump to the procedure's end label -/
   | ret
+  /-- the body of a function inlined at its only call site: `f: ; body ; fend:` — a `return` inside jumps to `fend` -/
+  | inl (body : Stmt V)
 
 /-- source-level state: registers (one per variable / temporary), the stack memory, and the effects so far, newest first -/
 structure SSt (V : Type) where
@@ -88,6 +90,12 @@ def exec : Nat → Stmt V → SSt V → Res V
   | _, .brk, s => .ok .brk s
   | _, .cont, s => .ok .cont s
   | _, .ret, s => .ok .ret s
+  | n, .inl body, s =>
+      match exec n body s with
+      | .ok .norm s' => .done s'
+      | .ok .ret s' => .done s'
+      | .ok _ _ => .stuck
+      | r => r
   | 0, .call _, s => .timeout s
   | n + 1, .call k, s =>
       -- the body runs on the same registers; it ends normally or by `return`; a `break` / `continue` that would leave it is
@@ -143,6 +151,7 @@ def size {V : Type} : Stmt V → Nat
   | .putm _ _ => 1
   | .call _ => 1
   | .ret => 1
+  | .inl body => size body + 2
 
 def nopI {V : Type} : Instr Reg V := ⟨.nop, none, []⟩
 
@@ -173,6 +182,8 @@ def comp {V : Type} (lit : Nat → V) (entry : Nat → Nat) : Stmt V → Nat →
       [⟨.jmp, none, [.num (lit base)]⟩, nopI]
   | .loop body, base, _, _, rl =>
       [nopI] ++ comp lit entry body (base + 1) base (base + size body + 2) rl ++ [⟨.jmp, none, [.num (lit base)]⟩, nopI]
+  | .inl body, base, cl, bl, _ =>
+      [nopI] ++ comp lit entry body (base + 1) cl bl (base + 1 + size body) ++ [nopI]
 
 /-- the block of procedure `k` placed at its entry line: `f: ; body ; fend: ; j ra` -/
 def hasCall {V : Type} : Stmt V → Bool
@@ -182,6 +193,7 @@ def hasCall {V : Type} : Stmt V → Bool
   | .ifThen _ _ _ p => hasCall p
   | .while _ _ _ body => hasCall body
   | .loop body => hasCall body
+  | .inl body => hasCall body
   | _ => false
 
 def pushRa {V : Type} : Instr Reg V := ⟨.push, none, [.reg Special.ra]⟩
@@ -220,6 +232,7 @@ def NoCall {V : Type} : Stmt V → Prop
   | .ifThen _ _ _ p => NoCall p
   | .while _ _ _ body => NoCall body
   | .loop body => NoCall body
+  | .inl body => NoCall body
   | _ => True
 
 def opndOk {V : Type} : Opnd Reg V → Prop
@@ -252,6 +265,7 @@ def Good {V : Type} (sem : Sem V) (lo : Nat) (ok : Nat → Prop) : Stmt V → Pr
   | .while c neg args body =>
       (∀ vals : List V, vals.length = args.length → sem.cond neg vals = !sem.cond c vals) ∧ (∀ o ∈ args, opndOk o) ∧ Good sem lo ok body
   | .loop body => Good sem lo ok body
+  | .inl body => Good sem lo ok body
   | _ => True
 
 def opndOkB {V : Type} : Opnd Reg V → Bool
@@ -281,6 +295,7 @@ def goodB {V : Type} (sem : Sem V) (lo : Nat) (pairs : List (String × String ×
   | .ifThen c neg args p => pairs.contains (c, neg, args.length) && args.all opndOkB && goodB sem lo pairs procs p
   | .while c neg args body => pairs.contains (c, neg, args.length) && args.all opndOkB && goodB sem lo pairs procs body
   | .loop body => goodB sem lo pairs procs body
+  | .inl body => goodB sem lo pairs procs body
   | _ => true
 
 def noCallB {V : Type} : Stmt V → Bool
@@ -290,6 +305,7 @@ def noCallB {V : Type} : Stmt V → Bool
   | .ifThen _ _ _ p => noCallB p
   | .while _ _ _ body => noCallB body
   | .loop body => noCallB body
+  | .inl body => noCallB body
   | _ => true
 
 end PV.Core
